@@ -79,6 +79,15 @@ def mother_of(eng, st, tree):
 
 
 @spec_function()
+def mother_token(eng, st, tree):
+    h = st.heap
+    v = eng.as_val(st, tree)
+    c = get_ref(h.get_field(get_ref(v.t), "children"))
+    p = get_ref(h.lget(c, 0))
+    return SV(h.lget(get_ref(h.get_field(p, "children")), 0), "obj:Token")
+
+
+@spec_function()
 def lines_of(eng, st, tree):
     """the decayline children of a `decay` node (positions 1..), in order"""
     h = st.heap
